@@ -39,6 +39,13 @@ func verifDir() string {
 	return "/verif"
 }
 
+func outDir() string {
+	if d := os.Getenv("VERIF_OUT"); d != "" {
+		return d
+	}
+	return verifDir()
+}
+
 func loadKnown() *KnownFindings {
 	kf := &KnownFindings{}
 	b, err := os.ReadFile(filepath.Join(verifDir(), "known_findings.json"))
@@ -222,7 +229,7 @@ func report(out *checkOutcome, seed int, wall float64, repo string) int {
 		}
 	}
 	code := 0
-	replayDir := filepath.Join(verifDir(), "replays", prop)
+	replayDir := filepath.Join(outDir(), "replays", prop)
 	for _, k := range knownHit {
 		fmt.Printf("KNOWN-FINDING: property=%s %s (%s)\n", prop, k.What, k.Obligation)
 	}
@@ -344,9 +351,9 @@ func report(out *checkOutcome, seed int, wall float64, repo string) int {
 		"wall_s":      round3(wall),
 		"violations":  nviol,
 	}
-	os.MkdirAll(filepath.Join(verifDir(), "evidence"), 0o755)
+	os.MkdirAll(filepath.Join(outDir(), "evidence"), 0o755)
 	b, _ := json.MarshalIndent(ev, "", " ")
-	os.WriteFile(filepath.Join(verifDir(), "evidence", prop+".json"), b, 0o644)
+	os.WriteFile(filepath.Join(outDir(), "evidence", prop+".json"), b, 0o644)
 	fmt.Fprintf(os.Stderr, "%s: %d/%d obligations discharged, %d violations, %d known findings, %.1fs\n", prop, nDis, nObl, nviol, len(knownHit), wall)
 	return code
 }
